@@ -792,10 +792,25 @@ def is_zero(e: sp.Expr, seed: int = 0, budget_s: float = 20.0, allow_numeric: bo
     finally:
         signal.alarm(0)
         signal.signal(signal.SIGALRM, old)
-    # randomised zero test / refutation with high precision
+    # randomised zero test / refutation with high precision.  Applications of
+    # uninterpreted functions (and their derivatives) are independent atoms of the
+    # term algebra: each distinct application becomes a fresh symbol.
+    atoms = sorted({f for f in e.atoms(sp.Function) if isinstance(f, sp.core.function.AppliedUndef)}
+                   | set(e.atoms(sp.Derivative)), key=lambda a: (-len(str(a)), str(a)))
+    if atoms:
+        rep = {}
+        for i, a in enumerate(atoms):
+            rep[a] = sp.Symbol(f"atom{i}__", positive=True)
+        e = e.xreplace(rep)
+        if e == 0:
+            return True, "syntactic(atoms)"
+        try:
+            if sp.cancel(sp.together(e)) == 0:
+                return True, "cas-proof(atoms,cancel)"
+        except Exception:
+            pass
     syms = sorted(e.free_symbols, key=lambda s: s.name)
-    funcs = sorted({f.func for f in e.atoms(sp.Function) if isinstance(f, sp.core.function.AppliedUndef)}, key=str)
-    if funcs:
+    if any(isinstance(f, sp.core.function.AppliedUndef) for f in e.atoms(sp.Function)):
         return None, "uninterpreted functions remain; no numeric test"
     rnd = random.Random(seed + 12345)
     nz = 0
